@@ -231,6 +231,91 @@ fn check_vertical_sliver(i: u64, r: &mut Report) {
     }
 }
 
+/// Slivers whose apex lies on a pixel-centre row, exactly `w` to the right of a vertical edge that passes w/2 left of the
+/// pixel centre: on that row the span is [c - w/2, c + w/2] with exactly representable ends, so the fragment at the centre
+/// must carry the mean of the edge value and the apex value (again well defined however small w is).
+fn check_apex_sliver(i: u64, r: &mut Report) {
+    r.eval();
+    let c = [0.5f32, 3.5, 6.5][(i % 3) as usize];
+    let w = [1.0f32 / 1048576.0, 1.0 / 4194304.0, 1.0 / 65536.0, 1.0 / 1024.0][(i / 3 % 4) as usize];
+    let row = [1.5f32, 2.5, 5.5][(i / 12 % 3) as usize];
+    let (y0, y1) = (row - [1.5f32, 0.75, 1.0][(i / 36 % 3) as usize], row + [2.0f32, 0.5, 3.25][(i / 108 % 3) as usize]);
+    let zi = (i / 324 % 27) as usize;
+    let zs = [ZS[zi % 3], ZS[zi / 3 % 3], ZS[zi / 9 % 3]];
+    let a = [0.0f32, 1.0, 0.25];
+    let order = (i / 8748 % 3) as usize;
+    let x0 = c - w / 2.0;
+    let base = [(x0, y0, zs[0], a[0]), (x0, y1, zs[1], a[1]), (x0 + w, row, zs[2], a[2])];
+    let vs: [(f32, f32, f32, f32); 3] = std::array::from_fn(|k| base[(k + order) % 3]);
+    let verts: [_; 3] = std::array::from_fn(|k| vertex(pt3(vs[k].0, vs[k].1, vs[k].2), vs[k].3 * vs[k].2));
+    let case = || obj! {"kind" => "asliver", "i" => i};
+    let key = |cl: &str| format!("{cl}|apex sliver|c={c}|w={w:e}|row={row}|y={y0}..{y1}|z={zs:?}|order{order}");
+    let mut frags: Vec<(usize, usize, [f32; 3], f32)> = vec![];
+    let res = caught(|| tri_fill(verts, |mut sl| { let (y, xs) = (sl.y, sl.xs.clone()); let cap = xs.end.saturating_sub(xs.start) + 2; for (k, f) in sl.fragments().take(cap).enumerate() { frags.push((xs.start + k, y, f.pos.0, f.var)); } }));
+    if let Err(p) = res { r.violation(key("fill-panic"), format!("tri_fill panicked: {p}"), case()); return; }
+    for (x, y, pos, var) in &frags {
+        if pos.iter().any(|v| !v.is_finite()) || !var.is_finite() { r.violation(key("nan"), format!("fragment ({x},{y}) has non-finite pos {pos:?} / var {var}"), case()); return; }
+        if *x as f32 + 0.5 != c || *y as f32 + 0.5 != row { continue; }
+        // left end of the span: on the vertical edge at this row; right end: the apex
+        let t = (row as f64 - y0 as f64) / (y1 as f64 - y0 as f64);
+        let (z0, z1, z2) = (zs[0] as f64, zs[1] as f64, zs[2] as f64);
+        let (zl, vl) = (z0 + (z1 - z0) * t, a[0] as f64 * z0 + (a[1] as f64 * z1 - a[0] as f64 * z0) * t);
+        let (zp, vp) = ((zl + z2) / 2.0, (vl + a[2] as f64 * z2) / 2.0);
+        let (zmin, zmax) = (zs.iter().cloned().fold(f32::MAX, f32::min) as f64, zs.iter().cloned().fold(f32::MIN, f32::max) as f64);
+        r.margin("apex-sliver-depth", (pos[2] as f64 - zp).abs(), 0.005 * (zmax - zmin) + 1e-5 * zmax);
+        if (pos[2] as f64 - zp).abs() > 0.005 * (zmax - zmin) + 1e-5 * zmax { r.violation(key("depth"), format!("pixel ({x},{y}) at the middle of the span: depth {} expected {zp}", pos[2]), case()); return; }
+        r.margin("apex-sliver-attr", (*var as f64 - vp / zp).abs(), 0.005 + 1e-5);
+        if (*var as f64 - vp / zp).abs() > 0.005 + 1e-5 { r.violation(key("attr"), format!("pixel ({x},{y}) at the middle of the span: var {var} expected {}", vp / zp), case()); return; }
+        r.nontrivial();
+    }
+}
+
+/// Flat slivers (total height 2e of the order of 1e-6 * y) whose middle vertex M lies exactly on a pixel-centre row and
+/// whose long edge A-B crosses that row at its midpoint: the span on the row runs from M to (A+B)/2, so a fragment at
+/// centre x carries the linear blend of M's values and the mean of A's and B's - no division by the tiny height.
+fn check_flat_sliver(i: u64, r: &mut Report) {
+    r.eval();
+    let (row, e) = [(2.5f32, 1.0f32 / 2097152.0), (100.5, 1.0 / 32768.0), (1000.5, 1.0 / 4096.0), (100.5, 1.0 / 131072.0)][(i % 4) as usize];
+    let (xa, xb) = [(2.0f32, 9.0f32), (9.0, 2.0), (1.0, 12.0)][(i / 4 % 3) as usize];
+    let xm = [0.25f32, 0.75, 13.25][(i / 12 % 3) as usize];
+    let zi = (i / 36 % 27) as usize;
+    let zs = [ZS[zi % 3], ZS[zi / 3 % 3], ZS[zi / 9 % 3]];
+    let a = [0.0f32, 1.0, 0.25];
+    let order = (i / 972 % 6) as usize;
+    let base = [(xa, row - e, zs[0], a[0]), (xb, row + e, zs[1], a[1]), (xm, row, zs[2], a[2])];
+    let perm = [[0, 1, 2], [0, 2, 1], [1, 0, 2], [1, 2, 0], [2, 0, 1], [2, 1, 0]][order];
+    let vs: [(f32, f32, f32, f32); 3] = std::array::from_fn(|k| base[perm[k]]);
+    let verts: [_; 3] = std::array::from_fn(|k| vertex(pt3(vs[k].0, vs[k].1, vs[k].2), vs[k].3 * vs[k].2));
+    let case = || obj! {"kind" => "fsliver", "i" => i};
+    let key = |cl: &str| format!("{cl}|flat sliver|row={row}|e={e:e}|A.x={xa}|B.x={xb}|M.x={xm}|z={zs:?}|order{order}");
+    let mut frags: Vec<(usize, usize, [f32; 3], f32)> = vec![];
+    let res = caught(|| tri_fill(verts, |mut sl| { let (y, xs) = (sl.y, sl.xs.clone()); let cap = xs.end.saturating_sub(xs.start) + 2; for (k, f) in sl.fragments().take(cap).enumerate() { frags.push((xs.start + k, y, f.pos.0, f.var)); } }));
+    if let Err(p) = res { r.violation(key("fill-panic"), format!("tri_fill panicked: {p}"), case()); return; }
+    let xmid = (xa as f64 + xb as f64) / 2.0;
+    let (lo, hi) = ((xm as f64).min(xmid), (xm as f64).max(xmid));
+    let (zmid, vmid) = ((zs[0] as f64 + zs[1] as f64) / 2.0, (a[0] as f64 * zs[0] as f64 + a[1] as f64 * zs[1] as f64) / 2.0);
+    let (zmin, zmax) = (zs.iter().cloned().fold(f32::MAX, f32::min) as f64, zs.iter().cloned().fold(f32::MIN, f32::max) as f64);
+    let mut seen = 0;
+    for (x, y, pos, var) in &frags {
+        if pos.iter().any(|v| !v.is_finite()) || !var.is_finite() { r.violation(key("nan"), format!("fragment ({x},{y}) has non-finite pos {pos:?} / var {var}"), case()); return; }
+        let cx = *x as f64 + 0.5;
+        if *y as f32 + 0.5 != row { r.violation(key("frag-position"), format!("fragment at row {y}: the sliver only contains the row of {row}"), case()); return; }
+        // coverage on that row: centres strictly inside (lo, hi) by more than 0.001 px are covered, centres outside by more are not (C04's band)
+        if cx < lo - 0.001 || cx > hi + 0.001 { r.violation(key("frag-position"), format!("fragment at x={cx} lies outside the span [{lo},{hi}] of the sliver on its row"), case()); return; }
+        if cx < lo + 0.001 || cx > hi - 0.001 { continue; }
+        seen += 1;
+        let s = (cx - xm as f64) / (xmid - xm as f64);
+        let (zp, vp) = (zs[2] as f64 + (zmid - zs[2] as f64) * s, a[2] as f64 * zs[2] as f64 + (vmid - a[2] as f64 * zs[2] as f64) * s);
+        r.margin("flat-sliver-depth", (pos[2] as f64 - zp).abs(), 0.005 * (zmax - zmin) + 1e-5 * zmax);
+        if (pos[2] as f64 - zp).abs() > 0.005 * (zmax - zmin) + 1e-5 * zmax { r.violation(key("depth"), format!("pixel ({x},{y}): depth {} expected {zp}", pos[2]), case()); return; }
+        r.margin("flat-sliver-attr", (*var as f64 - vp / zp).abs(), 0.005 + 1e-5);
+        if (*var as f64 - vp / zp).abs() > 0.005 + 1e-5 { r.violation(key("attr"), format!("pixel ({x},{y}): var {var} expected {}", vp / zp), case()); return; }
+    }
+    let expected = (0..16).filter(|k| { let cx = *k as f64 + 0.5; cx > lo + 0.001 && cx < hi - 0.001 }).count();
+    if seen != expected { r.violation(key("frag-position"), format!("{seen} fragments strictly inside the span [{lo},{hi}] on row {row}, {expected} pixel centres lie there"), case()); return; }
+    r.nontrivial();
+}
+
 fn tri_of(pts: &[(f32, f32)], i: u64, off: usize, per_vertex: bool) -> [(f32, f32); 3] {
     let n = pts.len() as u64;
     let idx = [(i % n) as usize, (i / n % n) as usize, (i / n / n) as usize];
@@ -276,6 +361,8 @@ fn main() {
     let cfg = Cfg::from_args(|s| if s == "cover" { "C04".into() } else { "C05".into() });
     if cfg.replay.is_some() {
         replay_main(&cfg, |c, r| {
+            if c.get("kind").and_then(|j| j.as_str()) == Some("fsliver") { check_flat_sliver(c.get("i").unwrap().as_u64().unwrap(), r); return; }
+            if c.get("kind").and_then(|j| j.as_str()) == Some("asliver") { check_apex_sliver(c.get("i").unwrap().as_u64().unwrap(), r); return; }
             if c.get("kind").and_then(|j| j.as_str()) == Some("vsliver") { check_vertical_sliver(c.get("i").unwrap().as_u64().unwrap(), r); return; }
             let t = parse_t(c);
             let fam = c.get("fam").and_then(|j| j.as_str()).unwrap_or("replay").to_string();
@@ -318,14 +405,14 @@ fn main() {
     }
     rep.sample(0, || obj! {"family" => fams[0].0.clone(), "triangle" => vec![0.0f32, 0.0, 4.0, 0.0, 2.0, 1.0]});
     rep.sample(1, || obj! {"family" => fams[2].0.clone(), "triangle_vertex_example" => vec![1.6f32, 2.325]});
-    if !is_cover { rep.merge(par_range(&cfg, 21870 * 3, check_vertical_sliver)); }
+    if !is_cover { rep.merge(par_range(&cfg, 21870 * 3, check_vertical_sliver)); rep.merge(par_range(&cfg, 8748 * 3, check_apex_sliver)); rep.merge(par_range(&cfg, 972 * 6, check_flat_sliver)); }
     if is_cover {
         rep.finish(&cfg, "exploration",
             "every ordered vertex triple of: the half-pixel lattice 0..N px, the same lattice with all vertices (or each vertex independently) shifted by 1/3, 0.1, 2^-10, 0.499 px (non-dyadic slopes), a copy translated by +57 px, flat slivers 2^-11 px high at y = 700 and 2^-20 px high at y = 2.5 around pixel-centre rows, and (thorough) the quarter-pixel lattice. Oracle: exact i128 edge functions on the exactly representable f32 inputs; centres within 0.001 px of an edge are exempt. Per triangle: covered set == inside set off the band, scanlines strictly increasing in y, no pixel twice, |xs| == number of fragments. All six vertex orders are separate cases. non-trivial = >=1 strictly inside centre.",
             &["screen coordinates in [0, 64] (negative pixel coordinates are outside tri_fill's usize domain)", "z = 1, attribute ()"]);
     } else {
         rep.finish(&cfg, "exploration",
-            "triangles as for C04 (thinned in the quick tier) x all 27 reciprocal-depth assignments over {1, 0.5, 0.1} (w ratio up to 10:1), also with all three scaled by 2^-24 and 2^10 (f32 attribute; other types on a subset), x attribute types f32, (f32,Vec2) and, on a stated subset, Vec2, Vec3, Color3f, Color4f, Point2, Point3, Angle with distinct non-constant vertex values handed over pre-divided (a*z). Oracle: f64 barycentric planes through the vertex depths and values at the pixel centre; var = value plane / depth plane; tolerance 0.5% of the vertex range; every fragment finite for area > 1e-6 (triangles with minimum altitude < 0.05 px are judged for finiteness and position only); reported position within 1e-3 px of the pixel centre; plus slivers 2^-24 .. 2^-12 px wide with an exactly vertical edge through a column of pixel centres, whose fragments on that column must carry the values interpolated along the edge. non-trivial = triangle with >= 1 fragment fully judged.",
+            "triangles as for C04 (thinned in the quick tier) x all 27 reciprocal-depth assignments over {1, 0.5, 0.1} (w ratio up to 10:1), also with all three scaled by 2^-24 and 2^10 (f32 attribute; other types on a subset), x attribute types f32, (f32,Vec2) and, on a stated subset, Vec2, Vec3, Color3f, Color4f, Point2, Point3, Angle with distinct non-constant vertex values handed over pre-divided (a*z). Oracle: f64 barycentric planes through the vertex depths and values at the pixel centre; var = value plane / depth plane; tolerance 0.5% of the vertex range; every fragment finite for area > 1e-6 (triangles with minimum altitude < 0.05 px are judged for finiteness and position only); reported position within 1e-3 px of the pixel centre; plus slivers 2^-24 .. 2^-12 px wide with an exactly vertical edge through a column of pixel centres, whose fragments on that column must carry the values interpolated along the edge, and slivers whose span on a pixel-centre row is [c - w/2, c + w/2] exactly (w = 2^-22 .. 2^-10), whose fragment there must carry the mean of the two span ends; and flat slivers (height ~1e-6 of y, at rows 2.5, 100.5, 1000.5) whose middle vertex lies on a pixel-centre row, whose fragments blend linearly between that vertex and the midpoint of the long edge. non-trivial = triangle with >= 1 fragment fully judged.",
             &["coordinates in [0, 64]", "tolerance 0.005*range + 1e-5*max|value|"]);
     }
 }
